@@ -13,14 +13,14 @@ def _c(text, technique, note=""):
 
 
 CLAIMS = {
-    "C01": _c("Hard constraints are assumed, checked and asserted before any randomising bit is tried, bits are asserted only "
+    "C01": _c("(after two seeded rounds also: conjunction folds keep earlier statements, the foreach copier copies every operand and has a handler for every expression kind, facade operators have a fixed expression-stack effect.) Hard constraints are assumed, checked and asserted before any randomising bit is tried, bits are asserted only "
               "after a SAT answer that included them, the model is read back only in a SAT state; every binary opcode lowers "
               "to the reference Boolector operator with both-signed extension; every constraint statement is attached to a "
               "rand set and survives rand-set merges; enum domains are asserted.",
               "typestate abstract interpretation of the solver protocol; partial evaluation of the opcode dispatcher; "
               "visitor-dispatch and merge-completeness analysis",
               "Value-level arithmetic of part-select / sum widths not decided."),
-    "C02": _c("SolveFailure is raised exactly on the hard not-SAT branch (all its sub-paths) and nowhere else; soft and swizzle "
+    "C02": _c("(also: the constant folder evaluates every expression kind itself and every operator it applies is defined on the value class; no expansion reads a list size that is being solved - three known findings.) SolveFailure is raised exactly on the hard not-SAT branch (all its sub-paths) and nowhere else; soft and swizzle "
               "sections can never raise it; every expression class answers build/width/is_signed/accept; every accept reaches an "
               "existing visitor handler.",
               "typestate abstract interpretation; class-table exhaustiveness; dispatch closure",
@@ -29,7 +29,7 @@ CLAIMS = {
               "propagated down the tree, recomputed before anything reads it; field values are written during a call only at the "
               "whitelisted, guarded sites; non-random fields enter the solver as constants of their current value.",
               "truth-table partial evaluation; effect (who-may-write) closure over the call graph; dominance facts in do_randomize"),
-    "C04": _c("List facade operations are bounded by the size field, the sum/product expansions and their solver caches are reset on "
+    "C04": _c("(also: size-dependent caches are invalidated after the solve, pre-extended elements are dropped, the foreach copier is complete; sum/product over a random-size list read a stale size - recorded as known findings.) List facade operations are bounded by the size field, the sum/product expansions and their solver caches are reset on "
               "both exits, foreach is unrolled over the list's elements with the index bound before the body is visited.",
               "def-use and snapshot-read analysis; effect analysis of cache attributes",
               "Whether each unrolled body holds is value-level."),
@@ -66,7 +66,7 @@ CLAIMS = {
               "coverage-model attribute.",
               "category-agreement check; effect closure",
               "PyUCIS internals are outside /repo."),
-    "C14": _c("Predicate visitors are monotone; bound propagators are only built at statement depth 0 and their op tables "
+    "C14": _c("(also: interval coalescing keeps the larger upper bound, bound builders are called with the expression's own operator, enum domains are sorted, propagators keep no state on persistent expressions.) Predicate visitors are monotone; bound propagators are only built at statement depth 0 and their op tables "
               "over-approximate; disabled blocks are skipped; the unconstrained draw and the swizzler take their range from the bound map.",
               "monotonicity check; partial evaluation of propagator tables; depth-counter balance",
               "Interval arithmetic of the propagators is value-level."),
